@@ -63,6 +63,11 @@ impl<Consumer> Pool<Consumer>
         Pool { buffers, pool_size }
     }
 
+    #[cfg(feature = "verif_hooks")]
+    pub(crate) fn verif_buffered(&self) -> usize {
+        self.buffers.iter().map(|buffer| buffer.read().key_hashes.len()).sum()
+    }
+
     /// Adds the key_hash to a random buffer. There are a total of pool_size buffers and the
     /// generated random number lies between 0 and pool_size
     /// After the buffer is picked, a write lock is acquired on the buffer to add the key_hash.
